@@ -138,9 +138,10 @@ def run_case(spec0):
             split = bool(rng.random() < 0.75)
             before = scan_cache(param, spec) if split else {}
             res['observations'] += 1
+            it_arg, vars_arg, par_snap = list(req), list(want), dict(param)
             try:
                 with common.Quiet():
-                    data = A.read_data(param, it=list(req), vars=list(want), rl=rl,
+                    data = A.read_data(param, it=it_arg, vars=vars_arg, rl=rl,
                                        restart=(-1 if explicit is None else explicit),
                                        split_per_it=split, skip_last=False,
                                        verbose=False)
@@ -149,6 +150,11 @@ def run_case(spec0):
                     res, f"read_data(split_per_it={split}) raises {type(e).__name__} in a history",
                     {"call": ci, "err": repr(e)[:300], "vars": want, "it": req, "rl": rl,
                      "layout": ltag})
+                break
+            if it_arg != list(req) or vars_arg != list(want) or param != par_snap:
+                common.add_violation(res, "read_data modifies the caller's it / vars list or param",
+                                     {"vars_before": list(want), "vars_after": vars_arg,
+                                      "it_before": list(req), "it_after": it_arg, "call": ci})
                 break
             its = [int(i) for i in data['it']]
             comp = []
